@@ -1,5 +1,5 @@
 PROP = {
-    "lean_modules": ["GunYu.Props.C20"],
+    "lean_modules": ["GunYu.Props.C20", "GunYu.Props.C20Whole"],
     "audit_namespaces": ["GunYu.Props.C20"],
     "required_theorems": [
         "GunYu.Props.C20.replace_final",
@@ -15,6 +15,31 @@ PROP = {
         "GunYu.Props.C20.bad_data_bisync_fails",
         "GunYu.Props.C20.retag_group",
         "GunYu.Props.C20.rewriteCmd_cmdKey",
+        # whole runs (Props/C20Whole.lean)
+        "GunYu.Props.C20.plain_runner",
+        "GunYu.Props.C20.bisync_runner",
+        "GunYu.Props.C20.resumed_is_whole",
+        "GunYu.Props.C20.resumed_is_whole_bisync",
+        "GunYu.Props.C20.whole_plain",
+        "GunYu.Props.C20.whole_bisync",
+        "GunYu.Props.C20.replace_whole",
+        "GunYu.Props.C20.ignore_whole",
+        "GunYu.Props.C20.error_whole_clean",
+        "GunYu.Props.C20.error_whole_stop",
+        "GunYu.Props.C20.replace_whole_bisync",
+        "GunYu.Props.C20.ignore_whole_bisync",
+        "GunYu.Props.C20.error_whole_clean_bisync",
+        "GunYu.Props.C20.error_whole_stop_bisync",
+        "GunYu.Props.C20.bad_data_whole_bisync",
+        "GunYu.Props.C20.replace_whole_resumed",
+        "GunYu.Props.C20.ignore_whole_resumed",
+        "GunYu.Props.C20.error_whole_stop_resumed",
+        "GunYu.Props.C20.whole_bisync_resumed",
+        "GunYu.Props.C20.whole_worker_plain",
+        "GunYu.Props.C20.whole_worker_bisync",
+        "GunYu.Props.C20.replace_whole_worker",
+        "GunYu.Props.C20.ignore_whole_worker",
+        "GunYu.Props.C20.error_whole_stop_worker",
     ],
     "expected_facts": {},
     "harness": [
@@ -77,9 +102,15 @@ PROP = {
         "later chunks carry the key's expiry or none (Value.exp): holds for the loader before and after the D8 repair",
     ],
     "partial": [
-        "snapshot level: the theorems are per key group; runPlain_append (composition) is a lemma, no theorem over a list of groups "
-        "/ several DBs is stated, there is no runBisync_append, and worker_is_* need every entry in the connection's DB (the SELECT "
-        "branch, TargetDb/TargetDbMap are correspondence-only: the driver maps entry DBs before runWorker)",
+        "snapshot level, what is left after the whole-run theorems (Props/C20Whole.lean: the run over a ++ b IS the run over a "
+        "resumed over b - runPlain_split / runBisync_split, every split point, also between the chunks of one key; every key of a "
+        "snapshot of pairwise distinct keys, every pre-existing key and every other cell accounted for, per policy, plain and "
+        "bidirectional, one DB (whole_plain / whole_bisync and corollaries) and several DBs with the worker's SELECT "
+        "(whole_worker_*: stated on runWorker, the function the harness compares the real loops with)): "
+        "(a) TargetDb / TargetDbMap stay correspondence-only (the driver maps the entries' DBs before runWorker); "
+        "(b) keyless entries (functions, AUX: db = -1) between the key groups are not in the whole-run statements (they are in the "
+        "per-entry model and in the request diff); (c) the groups' keys (cells) must be pairwise distinct - two snapshot keys that "
+        "rewrite to one target key, or two source DBs mapped to one target DB with one key name, are excluded, not decided",
         "replaceHashTag: the worker replays `retag e` - applied in the driver; proved only that retag keeps a key group a key group "
         "on the rewritten key (retag_group) and moves the command key (rewriteCmd_cmdKey); that the real code equals `replay (retag e)` "
         "is correspondence (D27, D28, D29 were found there)",
@@ -99,10 +130,15 @@ MANIFEST = {
             "with exactly the snapshot's value and expiry and nothing else changes; with ignore only the probe is sent - for every "
             "chunk - and the keyspace is unchanged; with error the replay stops after the probe with nothing modified; the same "
             "three for the bidirectional builder (skippedKey) + unit executor; fresh keys end with the snapshot value under any "
-            "policy. The models of RdbReplay.Replay, buildBisyncRdbReplayUnit/execBisyncRdbUnit and the two worker loops are tied "
+            "policy. WHOLE RUNS: the run over a ++ b is the run over a resumed over b from the remembered state and the target a left "
+            "(every split point, also between the chunks of a key; plain and bidirectional); for a snapshot = any list of key groups "
+            "with pairwise distinct keys, from any state and target: every key gets its policy's effect on what it held at the START "
+            "(replace: snapshot value; ignore: kept / snapshot value; error: stop at the first held key, keys before it written, all "
+            "else untouched; bidirectional: a payload the target cannot load stops the run there, nothing merged), every other cell "
+            "untouched - one DB, and several DBs with the worker's SELECT (stated on runWorker). The models of RdbReplay.Replay, buildBisyncRdbReplayUnit/execBisyncRdbUnit and the two worker loops are tied "
             "to the real code by request-by-request correspondence against the target double with pre-populated keys; an "
             "independent Go monitor checks the property itself on the real code's final keyspace.",
     "note": "trusted: Lean kernel, transcribed Redis semantics of the few commands used, target double, harness; models of the "
             "REPAIRED code (D7, D21, D24, D25, D27, D28, D29 fixed)",
-    "technique": "Lean 4 proof (induction over the chunk list, per-key object semantics, frame lemmas) + differential correspondence + monitor",
+    "technique": "Lean 4 proof (induction over the chunk list, per-key object semantics, frame lemmas; generic induction over key groups for any runner that splits) + differential correspondence + monitor",
 }
